@@ -73,7 +73,19 @@ def run(rep, tier, seed, proof_ok):
                 "renaming, facade of an alias / of a wrapper, wrapper made in the facade, two hops) x definition and exposure each on the accepted or "
                 "the non-accepted side x 5 import forms; a random history of 4 edits (code / tracked variable, accepted / non-accepted side) is "
                 "replayed by fresh processes on one local store: accepted edits must change the signature of every root that reaches them and the kept "
-                "value must equal plain execution, non-accepted edits must change none; constructs refused at every step are counted, not violations")
+                "value must equal plain execution, non-accepted edits must change none; constructs refused at every step are counted, not violations; "
+                "then PACKAGE AND MODULE KINDS (harness/c14_kinds.py): every level of the package chain (depth 1..4 quick / 1..6, accepted prefix at every "
+                "depth, 1..40 accepted packages, the three twins) is a regular package, a PEP 420 namespace package without __init__.py (one at every "
+                "position incl. the accepted prefix itself, or the whole chain) or a package whose __init__ imports its children; the tree is a directory, "
+                "namespace packages split over two sys.path roots, a zip file on sys.path or reached through a symbolic link; the pipeline module is in a "
+                "regular package, in a namespace package or a single file; the function is reached through 15 leaf kinds (single-file module, package "
+                "__init__, file that is a symbolic link, relative import of a sibling / of a module of the parent package by from-import and by module, star "
+                "import governed by __all__ through a module / a package __init__, sub-module as attribute of its package, sub-module imported lazily "
+                "inside the function by dotted name (loaded before by the pipeline or not) / under an alias / relatively, built-in and frozen modules without __file__ next to it) on the accepted "
+                "and on the non-accepted side x 7 import forms (the 5 above + attribute chains starting at an alias of the top-level package / of a "
+                "package in the middle of the chain); history of one edit per side (quick) or of the 4 edits replayed by fresh processes on one local "
+                "store, judged as for the shapes; besides, an accepted module must never be refused as not accepted (MODULE_NOT_FOUND) when plain "
+                "execution works, and the data function of the non-accepted twin module must be refused with a DDS error naming the module")
     cases = gen_cases(rng, tier)
     impl = C.run_driver("drive_small.py", {"kind": "authorized", "cases": cases})
     model = C.coq_eval_strings(PRELUDE, [f"run_authorized {lst(c['parts'])} {lst(c['accepted'])}" for c in cases], label="c14")
@@ -106,6 +118,15 @@ def run(rep, tier, seed, proof_ok):
                                             "shape_scenarios": rep.extra["shape_part"]["scenarios"],
                                             "distinct_shape_x_sides_x_import_form": rep.extra["shape_part"]["distinct_shape_sides_form"],
                                             "shape_root_evaluations_judged": rep.extra["shape_part"]["root_evaluations_judged"]})
+    import c14_kinds
+    c14_kinds.run(rep, tier, seed, proof_ok, rng)
+    kp = rep.extra["kind_part"]
+    rep.extra["input_distribution"].update({"kind_configurations": kp["configurations"], "package_level_kinds": kp["level_kinds"], "tree_containers": kp["containers"],
+                                            "pipeline_module_kinds": kp["pipeline_kinds"], "leaf_kinds": kp["leaf_kinds"], "kind_import_forms": kp["import_forms"],
+                                            "distinct_chain_x_container_x_pipeline": kp["distinct_chain_x_container_x_pipeline"], "kind_scenarios": kp["scenarios"],
+                                            "distinct_leaf_x_side_x_form_x_levelkinds_x_container": kp["distinct_leaf_side_form_levelkinds_container"],
+                                            "kind_root_evaluations_judged": kp["root_evaluations_judged"],
+                                            "data_functions_of_non_accepted_modules_by_kind": kp["data_functions_of_non_accepted_modules"]})
 
 
 def replay(path):
@@ -116,6 +137,9 @@ def replay(path):
         print(json.dumps({"case": r["case"], "impl": i, "expected": exp}))
         print("REPRODUCED" if i != exp else "not reproduced")
         return 1 if i != exp else 0
+    if "kind_case" in r:
+        import c14_kinds
+        return c14_kinds.replay(r)
     if "shape_case" in r:
         import c14_shapes
         return c14_shapes.replay(r)
